@@ -352,16 +352,21 @@ structure Net (W S F O : Type) where
   update : W → S → W
   eval_indep : ∀ w s s' f, run Mode.eval w s f = run Mode.eval w s' f
 
-/-- Does the inference wrapper switch the network to eval mode on every forward?
-As coded: `TopDownInferenceModel.forward` calls `centroid_crop.eval()` / `instance_peaks.eval()`;
-`SingleInstanceInferenceModel.forward` and `BottomUpInferenceModel.forward` call the network as it is. -/
+/-- Does the inference wrapper switch the network to eval mode on every forward?  At HEAD (since
+dc60a97) all three do: `TopDownInferenceModel.forward` calls `centroid_crop.eval()` /
+`instance_peaks.eval()`, `SingleInstanceInferenceModel.forward` and `BottomUpInferenceModel.forward`
+call `self.torch_model.eval()`. -/
+def forcesEval : Kind → Bool := fun _ => true
+
+/-- regression record (F-C12, before dc60a97): single-instance and bottom-up called the network in
+whatever mode it was left in -/
 def forcesEvalAsIs : Kind → Bool
   | .topdown => true
   | .single => false
   | .bottomup => false
 
-/-- repaired (`fixes/C12-eval-mode.patch`): every wrapper forces eval mode -/
-def forcesEvalFixed : Kind → Bool := fun _ => true
+/-- old name of `forcesEval` -/
+abbrev forcesEvalFixed : Kind → Bool := forcesEval
 
 /-- mode the network actually runs in: the caller left it in `cur` (its call history) -/
 def modeOf (force : Bool) (cur : Mode) : Mode := if force then Mode.eval else cur
@@ -374,6 +379,33 @@ def netForward {W S F O : Type} (net : Net W S F O) (stats : List F → S) (forc
    match m with
    | Mode.eval => w
    | Mode.train => net.update w (stats batch))
+
+/-! ## top-down with ground-truth peaks (`FindInstancePeaksGroundTruth.forward`) -/
+
+/-- The parse loop: `peaks_list` is ONE flat list of the matched ground-truth instances of the whole
+batch (batch-major); frame `i` takes `counts[i]` of them starting at the running offset `parsed`, is
+padded with NaN rows (`none`) to `max_inst` or truncated to it, and advances the offset by its count.
+A frame without a match (`i not in matched_batch_inds`) gets `max_inst` NaN rows and does not advance
+the offset.  `ms` = the per-frame matched instances (only their lengths — `bincount` — are used
+here), `flat` = `peaks_list`. -/
+def gtParse {τ : Type} (maxInst : Nat) : Nat → List (List τ) → List τ → List (List (Option τ))
+  | _, [], _ => []
+  | parsed, m :: ms, flat =>
+    let c := m.length
+    if c = 0 then List.replicate maxInst none :: gtParse maxInst parsed ms flat
+    else
+      let cur := (flat.drop parsed).take c
+      (if c < maxInst then cur.map some ++ List.replicate (maxInst - c) none
+       else (cur.take maxInst).map some) :: gtParse maxInst (parsed + c) ms flat
+
+/-- the forward: flat list = concatenation of the per-frame matches -/
+def gtPeaks {τ : Type} (maxInst : Nat) (ms : List (List τ)) : List (List (Option τ)) :=
+  gtParse maxInst 0 ms ms.flatten
+
+/-- what a frame gets on its own -/
+def gtPad {τ : Type} (maxInst : Nat) (m : List τ) : List (Option τ) :=
+  if m.length < maxInst then m.map some ++ List.replicate (maxInst - m.length) none
+  else (m.take maxInst).map some
 
 /-- `_predict_generator`: read up to `B` frames per round until the sentinel -/
 def chunksFuel {τ : Type} (B : Nat) : Nat → List τ → List (List τ)
